@@ -3,7 +3,7 @@ C11, post-processing: the result of `fstree_resolve_hard_links` (and therefore i
 depend on the order of the `links_unresolved` list, for the links a directory scan produces (every pending link points to
 an existing node that is neither a directory nor itself a hard link: the hard-link filter only hands out primary names).
 -/
-import Sqfs.Proofs.FsTreeScan
+import Sqfs.Proofs.FsTreeLemmas
 
 namespace Sqfs.FsTree
 
@@ -220,11 +220,11 @@ theorem flat_ne {root : TNode} {p tp : Path} (h : FlatAt root p tp) : p ≠ tp :
   rw [hn] at hnh; cases hnh
 
 theorem resolveLink_flat {root : TNode} {p tp : Path} (h : FlatAt root p tp) (fuel : Nat) :
-    resolveLink root (fuel + 2) p =
+    resolveLink root (fuel + 1) p =
       if lcAt root tp = some 0xFFFFFFFF then none else some (resolveEffect root p tp) := by
   have hne := flat_ne h
   obtain ⟨n, tn, hp, hn, ht, htp, hnh, hnd⟩ := h
-  have hfollow : followLink root p (fuel + 2) p = some tp := by
+  have hfollow : followLink root p (fuel + 1) p = some tp := by
     have hne' : ¬ tp = p := fun e => hne e.symm
     simp only [linkTargetOf] at ht
     cases he : n.attr.extra with
@@ -318,8 +318,8 @@ theorem resolveEffect_comm {root : TNode} {p tp q tq : Path} (hp : FlatAt root p
 
 theorem resolveLink_comm {root : TNode} {p tp q tq : Path} (hp : FlatAt root p tp) (hq : FlatAt root q tq) (hpq : p ≠ q)
     (fuel : Nat) :
-    (resolveLink root (fuel + 2) p).bind (fun r => resolveLink r (fuel + 2) q)
-      = (resolveLink root (fuel + 2) q).bind (fun r => resolveLink r (fuel + 2) p) := by
+    (resolveLink root (fuel + 1) p).bind (fun r => resolveLink r (fuel + 1) q)
+      = (resolveLink root (fuel + 1) q).bind (fun r => resolveLink r (fuel + 1) p) := by
   have sp := flat_step hp hq
   have sq := flat_step hq hp
   rw [resolveLink_flat hp, resolveLink_flat hq]
@@ -353,7 +353,7 @@ theorem resolveLink_comm {root : TNode} {p tp q tq : Path} (hp : FlatAt root p t
         rw [resolveEffect_comm ⟨_, tn, ‹_›, ‹_›, ‹_›, h4, ‹_›, ‹_›⟩ ⟨_, tm, ‹_›, ‹_›, ‹_›, g4, ‹_›, ‹_›⟩ hpq]
 
 theorem flatLinks_step {root : TNode} {x : Path} {l : List Path} (h : FlatLinks root (x :: l)) {root' : TNode} (fuel : Nat)
-    (hr : resolveLink root (fuel + 2) x = some root') : FlatLinks root' l := by
+    (hr : resolveLink root (fuel + 1) x = some root') : FlatLinks root' l := by
   obtain ⟨tx, hx⟩ := h x List.mem_cons_self
   rw [resolveLink_flat hx] at hr
   split at hr
@@ -370,13 +370,13 @@ theorem flatAt_target_unique {root : TNode} {p t₁ t₂ : Path} (h₁ : FlatAt 
   rw [a3] at b3; cases b3; rfl
 
 theorem resolveHardLinks_perm {l₁ l₂ : List Path} (hp : l₁.Perm l₂) (fuel : Nat) :
-    ∀ root : TNode, FlatLinks root l₁ → resolveHardLinks (fuel + 2) l₁ root = resolveHardLinks (fuel + 2) l₂ root := by
+    ∀ root : TNode, FlatLinks root l₁ → resolveHardLinks (fuel + 1) l₁ root = resolveHardLinks (fuel + 1) l₂ root := by
   induction hp with
   | nil => intros; rfl
   | cons x _ ih =>
     intro root hf
     simp only [resolveHardLinks]
-    cases hr : resolveLink root (fuel + 2) x with
+    cases hr : resolveLink root (fuel + 1) x with
     | none => rfl
     | some root' => exact ih root' (flatLinks_step hf fuel hr)
   | swap x y l =>
@@ -387,15 +387,15 @@ theorem resolveHardLinks_perm {l₁ l₂ : List Path} (hp : l₁.Perm l₂) (fue
       obtain ⟨ty, hy⟩ := hf y List.mem_cons_self
       have hc := resolveLink_comm hy hx (Ne.symm hxy) fuel
       simp only [resolveHardLinks]
-      cases h1 : resolveLink root (fuel + 2) y with
+      cases h1 : resolveLink root (fuel + 1) y with
       | none =>
-        cases h2 : resolveLink root (fuel + 2) x with
+        cases h2 : resolveLink root (fuel + 1) x with
         | none => rfl
         | some r2 =>
           simp only [h1, h2, Option.bind_none, Option.bind_some] at hc
           simp only [← hc]
       | some r1 =>
-        cases h2 : resolveLink root (fuel + 2) x with
+        cases h2 : resolveLink root (fuel + 1) x with
         | none =>
           simp only [h1, h2, Option.bind_none, Option.bind_some] at hc
           simp only [hc]
@@ -410,7 +410,12 @@ theorem resolveHardLinks_perm {l₁ l₂ : List Path} (hp : l₁.Perm l₂) (fue
 /-- `fstree_post_process` does not depend on the order in which the pending hard links were queued -/
 theorem postProcess_perm {l₁ l₂ : List Path} (hp : l₁.Perm l₂) (tree : TNode) (hf : FlatLinks tree l₁) :
     postProcess tree l₁ = postProcess tree l₂ := by
-  simp only [postProcess, ← hp.length_eq, resolveHardLinks_perm hp l₁.length tree hf]
+  cases l₁ with
+  | nil => rw [List.Perm.nil_eq hp]
+  | cons x xs =>
+    have hlen : (x :: xs).length = xs.length + 1 := rfl
+    simp only [postProcess, ← hp.length_eq]
+    rw [hlen, resolveHardLinks_perm hp xs.length tree hf]
 
 /-- executable form of `FlatAt` (for concrete instances) -/
 def flatAtB (root : TNode) (p tp : Path) : Bool :=
